@@ -196,7 +196,8 @@ class Session:
                 d = {"ev": "Draw", "stream": e["stream"], "method": e["method"], "n": e.get("n", 0), "u": e.get("u", []),
                      "ratio": [], "result": [x + 1 for x in e.get("result", [])], "a": e.get("a", 0), "replace": e.get("replace", False),
                      "sid": e.get("sid"), "before": e.get("before", ""), "after": e.get("after", ""), "task": e.get("task", 0)}
-                if e["method"] == "uniform" and e["stream"] == "parent" and len(seen_ll) == d["n"] and d["n"] > 0:
+                # the ratio vector always covers EVERY sample evaluated so far (a draw may cover all of them, or only the new ones)
+                if e["method"] == "uniform" and e["stream"] == "parent" and len(seen_ll) >= d["n"] and d["n"] > 0:
                     ll = np.array(seen_ll, dtype=float)
                     with np.errstate(all="ignore"):
                         d["ratio"] = tokens.ord_tokens(np.exp(ll - ll.max()))
